@@ -43,5 +43,5 @@ pub static DA: EngineDef = EngineDef {
     shrink: shrink_erased::<sim::Da>,
     summarize: summarize_erased::<sim::Da>,
     describe: da_describe,
-    runs: |_| (60_000, 1_500_000),
+    runs: |_| (400_000, 8_000_000),
 };
